@@ -402,6 +402,7 @@ func (u *udpCase) lifeScenario(clients []*net.UDPAddr, unknown []*specKey) {
 		return
 	}
 	port0 := u.natPort[cs]
+	rem0 := u.removes // if the association is reported removed meanwhile (a stalled machine), a successor on another socket is legitimate
 	sleepUntil := func(t time.Time) { time.Sleep(time.Until(t)) }
 	// 1. keep-alive at 0.6 T, then probe at 1.45 T (0.85 T after the second datagram)
 	sleepUntil(start.Add(T * 6 / 10))
@@ -415,7 +416,7 @@ func (u *udpCase) lifeScenario(clients []*net.UDPAddr, unknown []*specKey) {
 	}
 	third := time.Now()
 	u.opPkt(c, unknown, pktOpts{conn: u.conn, forceValid: true, noDNS: true})
-	if p, ok := u.natPort[cs]; ok && p != port0 {
+	if p, ok := u.natPort[cs]; ok && p != port0 && u.removes == rem0 {
 		u.out.Oracle("C04", "datagrams of %s left from two sockets while its association was alive", cs)
 	}
 	u.out.Stat("life.keepalive", 1)
@@ -977,6 +978,30 @@ func (u *udpCase) opPkt(client *net.UDPAddr, unknown []*specKey, opts pktOpts) {
 				reportedOK = true
 			}
 		}
+	}
+	// An association of this client that expired just before this datagram was handled is reported
+	// removed BEFORE the new one is reported added: account for the removal first, so that the
+	// successor is not mistaken for it (a busy machine makes this window wide).
+	if natadd != nil {
+		kept := evs[:0:0]
+		seenAdd := false
+		for _, e := range evs {
+			if e.kind == "natadd" {
+				seenAdd = true
+			}
+			if e.kind == "natremove" && !seenAdd {
+				u.handleAsync(e)
+				continue
+			}
+			kept = append(kept, e)
+		}
+		evs = kept
+		for i := range evs {
+			if evs[i].kind == "natadd" {
+				natadd = &evs[i]
+			}
+		}
+		_, hasAssoc = u.natPort[cs]
 	}
 	// a reported OK means a datagram left for a target: wait for it
 	var got []sinkPkt
